@@ -3,8 +3,11 @@ import HqModel.Alloc.Concise
 M3 Alloc — the `group_solver` MILP (`crates/tako/src/internal/worker/resources/groups.rs`) as data.
 
 HiGHS is not modelled. The group sets it returned are a choice input; `solverAllowed` checks that they are feasible
-for the modelled constraints, that the reported objective value is the objective of these sets, and that it is the
-optimum (brute force over all subsets — group counts are small in generated cases).
+for the modelled constraints, that the reported objective value is the objective of these sets, and that it is optimal
+up to the solver's termination tolerance (HiGHS default `mip_rel_gap = 1e-4`: an incumbent is returned as soon as
+`(bound - incumbent) / |incumbent| ≤ 1e-4`), against the brute-force optimum over all subsets (group counts are small
+in generated cases). The tolerance is observable: with a coupling weight of 1024 (= the cost of one group) HiGHS does
+return two coupled groups where one uncoupled group is better by 3/32.
 
 Objective values are scaled by `objScale = 20000` so that every coefficient is an integer:
 `-1024 - u/32 ↦ -(1024*20000) - 625 u`, `-1024 + f/(10000/16) ↦ -(1024*20000) + 32 f`, coupling weight `w ↦ 20000 w`,
@@ -134,10 +137,17 @@ structure SolRec where
   sets : List (List Nat)
   deriving Repr, DecidableEq
 
+/-- `obj` is an objective value a MIP solver with relative gap tolerance `1e-4` may return when the optimum is `opt` -/
+def withinGap (opt obj : Int) : Bool := decide (obj ≤ opt) && decide ((opt - obj) * 10000 ≤ (obj.natAbs : Int))
+
 /-- is the recorded solver answer one that the model allows? -/
 def solverAllowed (lp : Lp) : Option SolRec → Bool
   | none => lp.optimum.isNone
-  | some r => lp.feasible r.sets && r.obj == lp.objective r.sets && lp.optimum == some r.obj
+  | some r =>
+    lp.feasible r.sets && r.obj == lp.objective r.sets &&
+      (match lp.optimum with
+       | some opt => withinGap opt r.obj
+       | none => false)
 
 /-- `group_solver`: `panic` for the out-of-bounds weight index, `badChoice` for an answer that is not allowed,
 otherwise the (validated) recorded answer. -/
